@@ -77,8 +77,11 @@ func prop(t *rapid.T) {
 		Script: chain.ScriptCfg{Writes: true, Data: true, Pollute: true, Copies: true, Abort: 6, Panic: 10},
 	}
 	prog := chain.GenProgram(t, w, opts, cfg)
-	// a panic hook is always installed: the history must go on after a panicking request
-	prog.Hooks.OnPanic = w.NewScript("onpanic", chain.Op{K: chain.OpStatus, N: 500}, chain.Op{K: chain.OpSet, S: "k3", S2: "hook"})
+	// usually a panic hook is installed; without one the panic leaves ServeHTTP (the harness recovers it, as net/http
+	// would) and the history goes on all the same
+	if rapid.IntRange(0, 3).Draw(t, "panicHook") > 0 {
+		prog.Hooks.OnPanic = w.NewScript("onpanic", chain.Op{K: chain.OpStatus, N: 500}, chain.Op{K: chain.OpSet, S: "k3", S2: "hook"})
+	}
 	if rapid.Bool().Draw(t, "onError") {
 		prog.Hooks.OnError = w.NewScript("onerror", chain.Op{K: chain.OpStatus, N: 500}, chain.Op{K: chain.OpSet, S: "k2", S2: "err"})
 	}
